@@ -306,6 +306,8 @@ class FakePool(object):
     def to_driver(self, v):
         """what the driver hands to pony for a server value: MySQLdb returns DECIMAL as decimal.Decimal, psycopg2 returns
         boolean as bool and numeric as Decimal; integers and text come back as int / str"""
+        if isinstance(v, sqlemu.JsonVal):
+            return v.text()          # psycopg2 (pony registers loads=lambda x: x) and MySQLdb hand JSON over as text
         return v
 
     def connect(self):
